@@ -237,6 +237,22 @@ def run(R):
     H.close()
     M.close()
     cli_rename_roots(R, g, fails, stats)
+    # Model/Coercion.v against coercion::apply_coercion / detect_style, and Model/PathName.v against the new_path the real
+    # planner computes (names with the term in every style, prefixes, suffixes, extensions, two variants, coercion on / off)
+    env = dict(core.ENV, RN_HARNESS=str(hp), RN_ROCQ=str(core.ROCQ), RN_WORK=str(core.BUILD / "pathname_work"))
+    quick = R.tier == "quick"
+    for script, args, key, pat in (("coercion_difftest.py", [str(R.seed + 8), "400" if quick else "9000"], "coercion_model",
+                                    r"apply_coercion disagreements: (\d+); detect_style disagreements \(3 per triple\): (\d+)"),
+                                   ("pathname_difftest.py", [str(R.seed + 3), "300" if quick else "4500"], "path_name_model", r"DISAGREEMENTS: (\d+)")):
+        rc, outp, dt = core.sh(["python3", str(core.VERIF / "lib" / script)] + args, env=env, timeout=3000)
+        m = __import__("re").search(pat, outp)
+        n_dis = sum(int(x) for x in m.groups()) if m else None
+        stats[key] = {"disagreements": n_dis, "summary": [ln for ln in outp.splitlines() if ln.startswith(("triples", "names", "real answers", "coerce"))][:3]}
+        if n_dis is None:
+            dis.append({"why": f"{script} did not complete", "log": outp[-1200:]})
+        elif n_dis:
+            dis.append({"why": f"{key}: the model differs from the implementation", "log": outp[-2000:]})
+    R.disagreements = len(dis)
     R.coverage["input_distribution"] = stats
     R.disagreements = len(dis)
     for f in fails[:3]:
